@@ -13,6 +13,7 @@ import hashlib
 import os
 import re
 import shutil
+import json
 import subprocess
 import sys
 import tempfile
@@ -46,11 +47,35 @@ class FlagCell:
         object.__setattr__(self, "writes", object.__getattribute__(self, "writes") + 1)
 
 
+SYNTHETIC = {}
+
+
+def synthetic_sources():
+    """modules with 1-3 formula members in every position among plain members (the catalogue itself never has more than one per module)"""
+    if SYNTHETIC:
+        return SYNTHETIC
+    head = '"""\nTitle\n=====\n\nText.\n"""\nfrom sympy import Eq, symbols\na, b, c = symbols("a b c")\n"""\nA plain member.\n"""\n'
+    plain = 'k{i} = a + {i}\n"""\nPlain member {i}.\n"""\n'
+    formula = 'law{i} = Eq(a, {i} * (b + c))\n"""\n:laws:symbol::\n\n:laws:latex::\n"""\n'
+    import itertools
+    for n in (2, 3, 4):
+        for pattern in itertools.product("FP", repeat=n):
+            if pattern.count("F") == 0:
+                continue
+            src = head + "".join((formula if ch == "F" else plain).format(i=i + 1) for i, ch in enumerate(pattern))
+            SYNTHETIC["synthetic:" + "".join(pattern)] = src
+    return SYNTHETIC
+
+
 def trace_of(relpath):
-    """toggle trace of the page as produced by the real patcher: list of 'D' (disable), 'R' (reset), 'M' (member/other statement)"""
+    """toggle trace of the page as produced by the real patcher: 'D' (disable), 'R' (reset), 'A' assignment, 'P' docstring with a formula
+    placeholder, 'S' other docstring, 'M' other statement"""
     from symplyphysics.docs.patch import patch_sympy_evaluate
-    with open(os.path.join(docsrc.REPO, relpath), encoding="utf-8") as f:
-        tree = ast.parse(f.read())
+    if relpath.startswith("synthetic:"):
+        tree = ast.parse(synthetic_sources()[relpath])
+    else:
+        with open(os.path.join(docsrc.REPO, relpath), encoding="utf-8") as f:
+            tree = ast.parse(f.read())
     if ast.get_docstring(tree) is None:
         return None
     tree = patch_sympy_evaluate(tree)
@@ -64,7 +89,8 @@ def trace_of(relpath):
                 tr.append("R")
                 continue
         if isinstance(stmt, ast.Expr) and isinstance(stmt.value, ast.Constant):
-            tr.append("S")      # docstring
+            txt = stmt.value.value if isinstance(stmt.value.value, str) else ""
+            tr.append("P" if ((":laws:symbol::" in txt or ":laws:latex::" in txt) and ":laws:sympy-eval::" not in txt) else "S")      # docstring (with / without a formula placeholder)
         elif isinstance(stmt, ast.Assign):
             tr.append("A")
         else:
@@ -80,8 +106,9 @@ def flag_obligation(relpath):
     out = {"name": f"flag:{relpath}", "trace": "".join(tr)}
     # well-nestedness on the real patched AST: D A S* R, nothing else inside a disabled window, no nested D
     s = "".join(tr)
-    if re.search(r"D[^R]*D", s) or s.count("D") != s.count("R") or re.search(r"D(?!AS*R)", s):
-        out.update(verdict="candidate", why=f"toggle trace is not of the form (disable, member assignment, docstring, reset): {s}")
+    body = s[1:] if s[:1] in "SP" else s        # the module docstring itself is not a member
+    if re.search(r"D[^R]*D", s) or s.count("D") != s.count("R") or re.search(r"D(?!A[SP]*R)", s) or re.search(r"(?<!D)AP", body):
+        out.update(verdict="candidate", why=f"toggle trace is not (disable, formula member, docstring, reset) around EVERY formula member and nowhere else: {s}")
         return out
     # symbolic initial flag through the real functions
     b0 = z3.Bool("flag0")
@@ -389,6 +416,57 @@ finally:
 '''
 
 
+ROLE_PROBE = r'''
+import sys, os, re, json
+from pathlib import Path
+from symplyphysics.docs import symbols_role, quantity_notation_role
+d = sys.argv[1]
+out = {}
+for root, _, files in os.walk(d):
+    for f in files:
+        p = os.path.join(root, f)
+        text = open(p, encoding="utf-8").read()
+        for m in set(re.findall(r":symbols:`\w*`|:quantity_notation:`\w*`", text)):
+            try:
+                t = quantity_notation_role.process_string(symbols_role.process_string(m, Path(p)), Path(p))
+            except Exception as e:
+                t = "raises " + type(e).__name__
+            out[m] = t
+print("@@" + json.dumps(out, sort_keys=True))
+'''
+
+
+def role_targets(outdir, hashseed):
+    """{role text: resolved target} for every role on the generated pages, computed in a fresh interpreter under the given hash seed"""
+    env = dict(os.environ)
+    env["PYTHONHASHSEED"] = str(hashseed)
+    try:
+        p = subprocess.run([sys.executable, "-c", ROLE_PROBE, outdir], capture_output=True, text=True, timeout=600, env=env, cwd="/tmp")
+    except subprocess.TimeoutExpired:
+        return None
+    for line in p.stdout.splitlines():
+        if line.startswith("@@"):
+            return json.loads(line[2:])
+    return None
+
+
+REPLAY_ROLES = r'''
+import sys, tempfile, shutil
+sys.path.insert(0, {root!r})
+from checks import c19
+d = tempfile.mkdtemp(prefix="c19replay_")
+try:
+    info = c19.generate(d)
+    maps = {{hs: c19.role_targets(d, hs) for hs in (0, 1, 2, 3)}}
+    diff = sorted(k for k in maps[0] if any(maps[hs].get(k) != maps[0][k] for hs in maps))
+    for k in diff: print(k, "->", sorted({{maps[hs].get(k) for hs in maps}}))
+    if diff:
+        print("REPRODUCED"); sys.exit(1)
+finally:
+    shutil.rmtree(d, ignore_errors=True)
+'''
+
+
 def page_sets(d):
     """(pages expected from the sources by the independent reading of the docstrings, pages present in the output directory d)"""
     expected = set()
@@ -431,7 +509,7 @@ def run(ctx):
                    "an exception raised between disable and reset would leak the flag (no catalogue module raises there; generation aborts in that case)"]
     ctx.trusted = ["z3", "CrossHair", "the concrete generation run is what it is: a run"]
     # S1
-    res = pmap(flag_obligation, files, chunk=8)
+    res = pmap(flag_obligation, files + sorted(synthetic_sources()), chunk=8)
     for r in res:
         if r is None:
             continue
@@ -491,6 +569,19 @@ def run(ctx):
                 ctx.ob("E:two runs byte-identical", "discharged", nontrivial=False)
             else:
                 ctx.ob("E:two runs byte-identical", "inconclusive", "outputs differ between two runs (PYTHONHASHSEED fixed)")
+            # determinism across PROCESSES: Python randomises string hashes per process unless PYTHONHASHSEED is set, so anything that
+            # iterates a set of names may differ from run to run.  The cross-reference roles are resolved in fresh interpreters under
+            # four hash seeds; every role used on any generated page must resolve to the same target in all of them.
+            maps = {hs: role_targets(d1, hs) for hs in (0, 1, 2, 3)}
+            if any(m is None for m in maps.values()):
+                ctx.ob("E:cross-references independent of the hash seed", "inconclusive", "role resolution subprocess failed")
+            else:
+                diff = sorted(k for k in maps[0] if any(maps[hs].get(k) != maps[0][k] for hs in maps))
+                if diff:
+                    ctx.violation("C19:E:hash-seed-dependent cross-references", f"role targets differ between interpreter runs (PYTHONHASHSEED 0..3): " +
+                                  "; ".join(f"{k} -> {sorted({maps[hs].get(k) for hs in maps})}" for k in diff[:6]), REPLAY_ROLES.format(root=ROOT))
+                else:
+                    ctx.ob("E:cross-references independent of the hash seed", "discharged", nontrivial=False)
             srcs = docsrc.all_documented_sources()
             expected, actual = page_sets(d1)
             if expected == actual:
